@@ -121,7 +121,7 @@ Qed.
 Lemma conv_section_spec name s :
   se_type (conv_section name s) = (if String.eqb (se_type s) "" then "DeterministicSampler" else se_type s) /\
   se_fields (conv_section name s) = se_fields s /\
-  se_rules (conv_section name s) = se_rules s /\
+  se_rules (conv_section name s) = map conv_rule (se_rules s) /\
   (forall k v, In (k, v) (se_params s) -> k <> "ClearFrequencySec" -> k <> "AdjustmentInterval" ->
      In (k, v) (se_params (conv_section name s))) /\
   (forall v, In ("ClearFrequencySec", v) (se_params s) -> In ("ClearFrequency", (v * second)%Z) (se_params (conv_section name s))) /\
@@ -165,3 +165,24 @@ Proof.
   intros Hv E. unfold emits in E. rewrite Hv in E. rewrite (String.eqb_refl "nondefault") in E.
   apply negb_false_iff, String.eqb_eq in E. exact E.
 Qed.
+
+(* the key fix-ups on any parameter list, used for top-level samplers and for samplers nested in rules alike *)
+Lemma conv_params_spec (l : list (string * Z)) :
+  (forall k v, In (k, v) l -> k <> "ClearFrequencySec" -> k <> "AdjustmentInterval" -> In (k, v) (map conv_param l)) /\
+  (forall v, In ("ClearFrequencySec", v) l -> In ("ClearFrequency", (v * second)%Z) (map conv_param l)) /\
+  (forall v, In ("AdjustmentInterval", v) l -> In ("AdjustmentInterval", (v * second)%Z) (map conv_param l)).
+Proof.
+  split; [|split].
+  - intros k v Hin H1 H2. apply in_map_iff. exists (k, v). split; [|exact Hin]. unfold conv_param. cbn [fst snd].
+    apply String.eqb_neq in H1, H2. rewrite H1, H2. reflexivity.
+  - intros v Hin. apply in_map_iff. exists ("ClearFrequencySec", v). split; [reflexivity|exact Hin].
+  - intros v Hin. apply in_map_iff. exists ("AdjustmentInterval", v). split; [reflexivity|exact Hin].
+Qed.
+
+Lemma conv_rule_spec r :
+  ru_text (conv_rule r) = ru_text r /\ ru_sub_type (conv_rule r) = ru_sub_type r /\
+  (forall k v, In (k, v) (ru_sub_params r) -> k <> "ClearFrequencySec" -> k <> "AdjustmentInterval" ->
+     In (k, v) (ru_sub_params (conv_rule r))) /\
+  (forall v, In ("ClearFrequencySec", v) (ru_sub_params r) -> In ("ClearFrequency", (v * second)%Z) (ru_sub_params (conv_rule r))) /\
+  (forall v, In ("AdjustmentInterval", v) (ru_sub_params r) -> In ("AdjustmentInterval", (v * second)%Z) (ru_sub_params (conv_rule r))).
+Proof. split; [reflexivity|]. split; [reflexivity|]. exact (conv_params_spec (ru_sub_params r)). Qed.
